@@ -193,7 +193,7 @@ CHECKS["C08"] = dict(
 
 CHECKS["C01"] = dict(
     technique="runtime monitoring: reference-model monitor (independent interpreter of the documented semantics) over exhaustive and random programs",
-    text="Every single-clause program over 40 query shapes (14 of them map-key filters `[ keys == | != | in | not in .. ]` with string, regex, mixed-type list and non-string right-hand sides) x some/all x 9 unary and 6 binary operators x all polarity spellings x 14 literals and 4 right-hand queries (3 of them selecting nothing) x 3 documents "
+    text="Every single-clause program over 44 query shapes (4 with quoted digits-only keys, 14 of them map-key filters `[ keys == | != | in | not in .. ]` with string, regex, mixed-type list and non-string right-hand sides) x some/all x 9 unary and 6 binary operators x all polarity spellings x 14 literals and 4 right-hand queries (3 of them selecting nothing) x 3 documents "
          "(~47k, exhaustive in both tiers) and random core-language programs (queries with * [*] [n] [filter] [keys filter], keys taken from variables, blocks, when guards, named references, let "
          "variables incl. `some` bindings, CNF, type blocks) on random documents are evaluated by the real evaluator and by gvlib/refint.py, a ~400-line "
          "interpreter written from the documentation with a different structure (result set -> truth values -> aggregation; no memo, no records); per-rule "
